@@ -159,4 +159,296 @@ theorem refines_step (s : PR α) (op : Op α (PR α)) (h : PRInv s) (hok : OpOk 
     refine ⟨rfl, ?_⟩
     simp [step, specStep, Op.map, abs, dkeys]
 
+/-- **The invariant is kept by every operation** (no side condition at all). -/
+theorem prinv_step (s : PR α) (op : Op α (PR α)) (h : PRInv s) : PRInv (step s op).1 := by
+  cases op with
+  | getInt i => simp only [step]; split <;> exact h
+  | getSlice sl => simp only [step]; split <;> exact h
+  | getName n => exact h
+  | getAttr n => simp only [step]; split <;> (try split) <;> exact h
+  | get n d => simp only [step]; split <;> (try split) <;> exact h
+  | setInt i v => simp only [step]; split <;> first | exact prinv_toks h _ | exact h
+  | setSlice sl vs => simp only [step]; split <;> first | exact prinv_toks h _ | exact h
+  | setName n v => exact prinv_setOcc h _ _
+  | delInt i =>
+    simp only [step]
+    cases hd : delIdx s.toks i with
+    | none => rw [delInt_none hd]; exact h
+    | some t => obtain ⟨R, hR⟩ := delInt_some hd; rw [hR]; exact prinv_fixDel h t R
+  | delSlice sl =>
+    simp only [step]
+    cases hd : delSlice s.toks sl with
+    | none => rw [delSliceOp_none hd]; exact h
+    | some t => obtain ⟨R, hR⟩ := delSliceOp_some hd; rw [hR]; exact prinv_fixDel h t R
+  | delName n => simp only [step]; split <;> first | exact prinv_ddel h n | exact h
+  | pop0 =>
+    simp only [step]
+    split
+    · exact h
+    · cases hd : delIdx s.toks (-1) with
+      | none => rw [delInt_none hd]; exact h
+      | some t => obtain ⟨R, hR⟩ := delInt_some hd; rw [hR]; exact prinv_fixDel h t R
+  | popInt i d =>
+    simp only [step]
+    split
+    · exact h
+    · cases hd : delIdx s.toks i with
+      | none => rw [delInt_none hd]; exact h
+      | some t => obtain ⟨R, hR⟩ := delInt_some hd; rw [hR]; exact prinv_fixDel h t R
+  | popName n d =>
+    simp only [step]
+    split
+    · split
+      · exact h
+      · split <;> first | exact prinv_ddel h n | exact h
+    · split <;> exact h
+  | insert i v => exact prinv_fixIns h _ i
+  | append v => exact prinv_toks h _
+  | extendList vs => exact prinv_toks h _
+  | extendPR o => exact prinv_iadd h
+  | iadd o => exact prinv_iadd h
+  | clear => exact ⟨by simp [step, dkeys], by simp [step]⟩
+  | contains n => exact h
+  | len => exact h
+  | bool => exact h
+  | iter => exact h
+  | reversed => exact h
+  | keys => exact h
+  | values => simp only [step]; split <;> exact h
+  | items => simp only [step]; split <;> exact h
+  | haskeys => exact h
+
+/-- a history is admissible when every `ParseResults` argument met on the way satisfies `OtherOk`
+    in the state it is used in -/
+def Admissible : PR α → List (Op α (PR α)) → Prop
+  | _, [] => True
+  | s, op :: ops => OpOk s op ∧ Admissible (step s op).1 ops
+
+/-- **Refinement, all histories.**  Any finite sequence of operations from a well-formed state: the final
+    abstract state and the whole sequence of return values / exception classes are those of the plain list +
+    ordered multimap put through the same operations. -/
+theorem refines_history (ops : List (Op α (PR α))) (s : PR α) (h : PRInv s) (hadm : Admissible s ops) :
+    abs (run s ops).1 = (specRun (abs s) (ops.map (Op.map abs))).1 ∧
+    (run s ops).2 = (specRun (abs s) (ops.map (Op.map abs))).2 ∧
+    PRInv (run s ops).1 := by
+  induction ops generalizing s with
+  | nil => exact ⟨rfl, rfl, h⟩
+  | cons op ops ih =>
+    obtain ⟨hop, hrest⟩ := hadm
+    obtain ⟨h1, h2⟩ := refines_step s op h hop
+    obtain ⟨i1, i2, i3⟩ := ih (step s op).1 (prinv_step s op h) hrest
+    simp only [run, specRun, List.map_cons]
+    rw [← h1, ← h2]
+    exact ⟨i1, by rw [i2], i3⟩
+
+/-- non-vacuity: a state with an ordinary name, a twice-bound name and a list-all flag; a history with a
+    negative index, a reversed extended slice, a name assignment, a `+=` with offsets, pops with defaults -/
+def exS : PR String :=
+  { toks := ["a", "0", "b"], dict := [("x", [("a", 0), ("b", 2)]), ("y", [("0", 1)])], all := ["x"] }
+def exO : PR String := { toks := ["c"], dict := [("z", [("c", 0)]), ("x", [("c", -1)])], all := ["z"] }
+def exOps : List (Op String (PR String)) :=
+  [.delInt (-3), .insert (-1) "i", .setName "y" "1", .iadd exO, .getName "x", .getName "y", .popName "q" (some "d"),
+   .getSlice ⟨none, none, some (-2)⟩, .delSlice ⟨some 0, none, some 2⟩, .pop0, .popInt 7 none, .getAttr "nope", .items]
+
+example : PRInv exS := ⟨by decide, by decide⟩
+example : Admissible exS exOps := by
+  refine ⟨trivial, trivial, trivial, ⟨⟨by decide, by decide⟩, Or.inl rfl⟩, ?_⟩
+  simp [Admissible, OpOk]
+example : (run exS exOps).1.toks = ["i"] := by decide +kernel
+example : ((run exS exOps).2.drop 4).take 3 =
+    [.view (.many ["a", "b", "c"]), .view (.one "1"), .val "d"] := by decide +kernel
+example : (run exS [.pop0, .popInt 7 none, .getAttr "nope", .getAttr "__nope"]).2 =
+    [.val "b", .err .index, .empty, .err .attribute] := by decide +kernel
+
+/-! ### the constructor establishes the invariant -/
+
+/-- every object built by `ParseResults(toklist, name, asList, modal)` (modelled argument shapes) is well formed -/
+theorem prinv_of_ctor (wrap : α → α) (arg : CtorArg α) (name : Option String) (asList modal : Bool)
+    (s : PR α) (hs : ctor wrap arg name asList modal = .ok s) : PRInv s := by
+  have h0 : ∀ (t : List α) (a : List String) (nm : Option String) (m : Bool),
+      PRInv ({ toks := t, dict := [], all := a, name := nm, modal := m } : PR α) :=
+    fun _ _ _ _ => ⟨by simp [dkeys], by simp⟩
+  unfold ctor at hs
+  cases name with
+  | none => simp only [Except.ok.injEq] at hs; subst hs; exact h0 _ _ _ _
+  | some nm =>
+    simp only at hs
+    split at hs
+    · simp only [Except.ok.injEq] at hs; subst hs; exact h0 _ _ _ _
+    · split at hs
+      · simp only [Except.ok.injEq] at hs; subst hs; exact h0 _ _ _ _
+      · simp only [Except.ok.injEq] at hs; subst hs; exact h0 _ _ _ _
+      · split at hs <;> (simp only [Except.ok.injEq] at hs; subst hs; exact prinv_setOcc (h0 _ _ _ _) _ _)
+      · split at hs <;> (simp only [Except.ok.injEq] at hs; subst hs; exact prinv_setOcc (h0 _ _ _ _) _ _)
+      · split at hs
+        · simp at hs
+        · simp only [Except.ok.injEq] at hs; subst hs; exact prinv_setOcc (h0 _ _ _ _) _ _
+
+/-- `ParseResults(existing, name, asList, modal)` (how the parser attaches a results name) keeps it -/
+theorem prinv_of_reinit (mk : List α → α) (s : PR α) (name : Option String) (asList modal : Bool)
+    (h : PRInv s) : PRInv (reinit mk s name asList modal) := by
+  have hm : ∀ (a : List String) (nm : Option String) (m : Bool),
+      PRInv ({ s with all := a, name := nm, modal := m } : PR α) := fun _ _ _ => ⟨h.nodup, h.nonempty⟩
+  unfold reinit
+  cases name with
+  | none => exact hm _ _ _
+  | some nm =>
+    simp only
+    split
+    · exact hm _ _ _
+    · split
+      · exact prinv_setOcc (hm _ _ _) _ _
+      · split
+        · exact prinv_setOcc (hm _ _ _) _ _
+        · exact hm _ _ _
+
+example : ∃ s, ctor (fun v => v ++ "!") (.list ["a", "b"]) (some "n") true false = .ok s ∧ s.all = ["n"] ∧
+    (step s (.getName "n")).2 = .view (.many ["a!"]) := ⟨_, rfl, rfl, by decide +kernel⟩
+
+/-! ### corollaries named in the property statement -/
+
+/-- the operations that only touch the token list -/
+def Op.listOnly : Op α (PR α) → Prop
+  | .delInt _ | .delSlice _ | .insert _ _ | .append _ | .extendList _ | .setInt _ _ | .setSlice _ _
+  | .pop0 | .popInt _ _ => True
+  | _ => False
+
+/-- **Deleting or inserting list items never removes or alters named values**: after `del r[i]`, `del r[a:b:c]`,
+    `insert`, `append`, `extend(list)`, `r[i] = v`, `r[a:b:c] = vs`, `pop()`, `pop(i)` — whether they succeed or
+    raise — the key order, every name's values and the list-all flags are exactly what they were.
+    No hypothesis on the state. -/
+theorem list_ops_keep_names (s : PR α) (op : Op α (PR α)) (hop : op.listOnly) :
+    (abs (step s op).1).order = (abs s).order ∧ (abs (step s op).1).vals = (abs s).vals ∧
+    (abs (step s op).1).la = (abs s).la := by
+  have key : ∀ t R, (abs ({ s with toks := t, dict := fixDel R s.dict } : PR α)).order = (abs s).order ∧
+      (abs ({ s with toks := t, dict := fixDel R s.dict } : PR α)).vals = (abs s).vals ∧
+      (abs ({ s with toks := t, dict := fixDel R s.dict } : PR α)).la = (abs s).la := by
+    intro t R; rw [abs_fixDel]; exact ⟨rfl, rfl, rfl⟩
+  cases op with
+  | delInt i =>
+    simp only [step]
+    cases hd : delIdx s.toks i with
+    | none => rw [delInt_none hd]; exact ⟨rfl, rfl, rfl⟩
+    | some t => obtain ⟨R, hR⟩ := delInt_some hd; rw [hR]; exact key t R
+  | delSlice sl =>
+    simp only [step]
+    cases hd : delSlice s.toks sl with
+    | none => rw [delSliceOp_none hd]; exact ⟨rfl, rfl, rfl⟩
+    | some t => obtain ⟨R, hR⟩ := delSliceOp_some hd; rw [hR]; exact key t R
+  | insert i v => simp only [step]; rw [abs_fixIns]; exact ⟨rfl, rfl, rfl⟩
+  | append v => exact ⟨rfl, rfl, rfl⟩
+  | extendList vs => exact ⟨rfl, rfl, rfl⟩
+  | setInt i v => simp only [step]; split <;> exact ⟨rfl, rfl, rfl⟩
+  | setSlice sl vs => simp only [step]; split <;> exact ⟨rfl, rfl, rfl⟩
+  | pop0 =>
+    simp only [step]
+    split
+    · exact ⟨rfl, rfl, rfl⟩
+    · cases hd : delIdx s.toks (-1) with
+      | none => rw [delInt_none hd]; exact ⟨rfl, rfl, rfl⟩
+      | some t => obtain ⟨R, hR⟩ := delInt_some hd; rw [hR]; exact key t R
+  | popInt i d =>
+    simp only [step]
+    split
+    · exact ⟨rfl, rfl, rfl⟩
+    · cases hd : delIdx s.toks i with
+      | none => rw [delInt_none hd]; exact ⟨rfl, rfl, rfl⟩
+      | some t => obtain ⟨R, hR⟩ := delInt_some hd; rw [hR]; exact key t R
+  | _ => exact absurd hop (by simp [Op.listOnly])
+
+/-- the form quoted in the property: `results[n]` is unchanged by `del` and `insert` -/
+theorem del_insert_keep_names (s : PR α) (n : String) (i : Int) (v : α) (sl : Slice) :
+    getName (step s (.delInt i)).1 n = getName s n ∧
+    getName (step s (.delSlice sl)).1 n = getName s n ∧
+    getName (step s (.insert i v)).1 n = getName s n := by
+  have aux : ∀ s' : PR α, (abs s').order = (abs s).order → (abs s').vals = (abs s).vals →
+      (abs s').la = (abs s).la → s'.all = s.all → getName s' n = getName s n := by
+    intro s' h1 h2 h3 h4
+    have hv := congrFun h2 n
+    simp only [abs] at hv
+    unfold getName
+    rw [h4]
+    have hnone : dget s'.dict n = none ↔ dget s.dict n = none := by
+      rw [dget_none_iff, dget_none_iff]
+      have : dkeys s'.dict = dkeys s.dict := h1
+      rw [this]
+    cases hd' : dget s'.dict n with
+    | none => rw [hnone.mp hd']
+    | some occ' =>
+      cases hd : dget s.dict n with
+      | none => rw [hnone.mpr hd] at hd'; exact absurd hd' (by simp)
+      | some occ =>
+        rw [hd', hd] at hv
+        simp only [Option.getD_some] at hv
+        have hl : (occ'.getLast?).map (·.1) = (occ.getLast?).map (·.1) := by
+          rw [← List.getLast?_map, ← List.getLast?_map, hv]
+        simp only [hv]
+        cases h1' : occ'.getLast? <;> cases h2' : occ.getLast? <;> simp_all
+  refine ⟨?_, ?_, ?_⟩
+  · obtain ⟨a, b, c⟩ := list_ops_keep_names s (.delInt i) trivial
+    refine aux _ a b c ?_
+    simp only [step]
+    cases hd : delIdx s.toks i with
+    | none => rw [delInt_none hd]
+    | some t => obtain ⟨R, hR⟩ := delInt_some hd; rw [hR]
+  · obtain ⟨a, b, c⟩ := list_ops_keep_names s (.delSlice sl) trivial
+    refine aux _ a b c ?_
+    simp only [step]
+    cases hd : delSlice s.toks sl with
+    | none => rw [delSliceOp_none hd]
+    | some t => obtain ⟨R, hR⟩ := delSliceOp_some hd; rw [hR]
+  · obtain ⟨a, b, c⟩ := list_ops_keep_names s (.insert i v) trivial
+    exact aux _ a b c rfl
+
+/-- **Attribute access to an unknown name returns `''`** (for a name that has no value; dunder names raise
+    AttributeError as the code says).  Hypothesis outside the model: `n` is not an attribute of the class, otherwise
+    Python never calls `__getattr__`. -/
+theorem unknown_attr_empty (s : PR α) (n : String) (hn : n ∉ dkeys s.dict) (hd : n.startsWith "__" = false) :
+    step s (.getAttr n) = (s, .empty) := by
+  have : dget s.dict n = none := (dget_none_iff _ _).mpr hn
+  have hg : getName s n = .error .key := by
+    unfold getName; rw [this]; split <;> rfl
+  simp only [step, hg, hd]
+  rfl
+
+example : step exS (.getAttr "nope") = (exS, .empty) := unknown_attr_empty exS "nope" (by decide) (by decide +kernel)
+
+/-! ### where the code leaves the list + multimap reading -/
+
+/-- **The exact side condition of `+=`.**  For well-formed `s`, `o`: `s += o` is the merge of the two results
+    *iff* `o` is truthy or every list-all name of `o` is already list-all in `s`.  (`__iadd__` returns early on a
+    falsy `other` and so drops the list-all names such an empty result carries.) -/
+theorem iadd_refines_iff (s o : PR α) (ho : PRInv o) :
+    abs (iadd s o) = (abs s).merge (abs o) ↔ (o.truthy = true ∨ ∀ n ∈ o.all, n ∈ s.all) := by
+  constructor
+  · intro heq
+    cases ht : o.truthy with
+    | true => exact Or.inl rfl
+    | false =>
+      right
+      intro n hn
+      rw [iadd_eq, ht] at heq
+      simp only [Bool.false_eq_true, if_false] at heq
+      have := congrFun (congrArg Abs.la heq) n
+      simp only [abs, Abs.merge, hn, decide_true, Bool.or_true, decide_eq_true_eq] at this
+      exact this
+  · intro h; exact abs_iadd s o ⟨ho, h⟩
+
+/-- the excluded point, concretely: `x` is an ordinary name of `s`; `o` is an empty result that carries the
+    list-all flag for `x` (what `Opt(...)("x*")` returns when it matches nothing).  After `s += o` the code answers
+    `s["x"]` with the last value, the multimap reading with the list of all values.  (Replayed on the real class by
+    harness/props/c10.py: registered finding `iadd_falsy_other_drops_listall`.) -/
+theorem iadd_falsy_shortcut_deviates :
+    ∃ s o : PR String, PRInv s ∧ PRInv o ∧
+      (step (step s (.iadd o)).1 (.getName "x")).2 = .view (.one "b") ∧
+      (specStep (specStep (abs s) (.iadd (abs o))).1 (.getName "x")).2 = .view (.many ["b"]) :=
+  ⟨{ toks := ["b"], dict := [("x", [("b", 0)])], all := [] }, { toks := [], dict := [], all := ["x"] },
+   ⟨by decide, by decide⟩, ⟨by decide, by decide⟩, by decide +kernel, by decide +kernel⟩
+
+/-- the statement lists `in` among the *list* operations; the class implements (and documents) it as *name*
+    membership: a token that is not a name is not `in` the result.  The specification follows the code here. -/
+theorem contains_is_not_list_membership :
+    ∃ s : PR String, PRInv s ∧ "a" ∈ s.toks ∧ (step s (.contains "a")).2 = .bool false :=
+  ⟨{ toks := ["a"], dict := [], all := [] }, ⟨by decide, by decide⟩, by decide, by decide +kernel⟩
+
 end PP.PR
